@@ -19,11 +19,31 @@ var LimbPatterns = []uint64{0, 1, 2, 1<<32 - 1, 1 << 32, 1<<32 + 1, 1 << 63, 1<<
 // Limb draws one 64-bit limb, biased towards boundary patterns.
 func Limb() *rapid.Generator[uint64] {
 	return rapid.Custom(func(t *rapid.T) uint64 {
-		if rapid.IntRange(0, 3).Draw(t, "limbKind") == 0 {
-			return rapid.Uint64().Draw(t, "limb")
+		switch rapid.IntRange(0, 7).Draw(t, "limbKind") {
+		case 0, 1:
+			return U64(t, "limb")
+		case 2:
+			// fold-boundary limb: w with w * c = -delta (mod 2^64) for the low word c of a modulus defect 2^256 - m
+			// (p: 2^32+977, n: 0x402da1732fc9bebf): the low half of the product w*c sits just below 2^64, where the
+			// carry chains of hand-written "fold the high part back" reductions are exercised
+			c := rapid.SampledFrom(FoldConstants).Draw(t, "foldC")
+			delta := U64(t, "foldDelta") >> uint(rapid.IntRange(24, 63).Draw(t, "foldSh"))
+			return (-delta) * inv64(c)
 		}
 		return rapid.SampledFrom(LimbPatterns).Draw(t, "limbPat")
 	})
+}
+
+// FoldConstants are the low 64-bit words of 2^256 - p and 2^256 - n.
+var FoldConstants = []uint64{0x1000003d1, 0x402da1732fc9bebf}
+
+// inv64 is the inverse of an odd word modulo 2^64 (Newton iteration).
+func inv64(c uint64) uint64 {
+	x := c
+	for i := 0; i < 6; i++ {
+		x *= 2 - c*x
+	}
+	return x
 }
 
 // FromLimbs builds an integer from four little-endian limbs.
@@ -48,12 +68,45 @@ func ToLimbs(v *big.Int) [4]uint64 {
 	return out
 }
 
+// mix64 is the splitmix64 finaliser (a bijection of uint64).
+func mix64(x uint64) uint64 {
+	x ^= x >> 30
+	x *= 0xbf58476d1ce4e5b9
+	x ^= x >> 27
+	x *= 0x94d049bb133111eb
+	x ^= x >> 31
+	return x
+}
+
+// U64 draws a 64-bit word that is (close to) uniformly distributed. rapid.Uint64 is heavily biased towards small
+// values (measured: top bit set in 2.3% of the draws), which is what shrinking wants but not what "random limb" means;
+// two draws are mixed through bijections and combined.
+func U64(t *rapid.T, label string) uint64 {
+	a := rapid.Uint64().Draw(t, label)
+	b := rapid.Uint64().Draw(t, label+"'")
+	return mix64(a+0x9e3779b97f4a7c15) ^ bitsRotl(mix64(b^0xd1b54a32d192ed03), 29)
+}
+
+func bitsRotl(x uint64, k uint) uint64 { return x<<k | x>>(64-k) }
+
+// RandBytes draws n bytes that are (close to) uniformly distributed.
+func RandBytes(t *rapid.T, label string, n int) []byte {
+	out := make([]byte, 0, n+8)
+	for len(out) < n {
+		w := U64(t, label)
+		for i := 0; i < 8; i++ {
+			out = append(out, byte(w>>(8*uint(i))))
+		}
+	}
+	return out[:n]
+}
+
 // Uniform256 draws a uniform 256-bit integer.
 func Uniform256() *rapid.Generator[*big.Int] {
 	return rapid.Custom(func(t *rapid.T) *big.Int {
 		var l [4]uint64
 		for i := range l {
-			l[i] = rapid.Uint64().Draw(t, "u")
+			l[i] = U64(t, "u")
 		}
 		return FromLimbs(l)
 	})
@@ -63,7 +116,7 @@ func Uniform256() *rapid.Generator[*big.Int] {
 // DESIGN.md section 3.3; simplest classes first so that shrinking moves towards small values.
 func Int(m *big.Int) *rapid.Generator[*big.Int] {
 	return rapid.Custom(func(t *rapid.T) *big.Int {
-		kind := rapid.IntRange(0, 13).Draw(t, "intKind")
+		kind := Pick(t, "intKind", 18)
 		var v *big.Int
 		switch kind {
 		case 0: // tiny
@@ -79,7 +132,7 @@ func Int(m *big.Int) *rapid.Generator[*big.Int] {
 			v.Add(v, big.NewInt(int64(rapid.IntRange(-1, 1).Draw(t, "pm"))))
 		case 4: // bit 255 set, small remainder
 			v = new(big.Int).Lsh(one, 255)
-			v.Add(v, new(big.Int).SetUint64(rapid.Uint64().Draw(t, "lo")))
+			v.Add(v, new(big.Int).SetUint64(U64(t, "lo")))
 		case 5: // bit 255 forced on a random value
 			v = Uniform256().Draw(t, "r")
 			v.SetBit(v, 255, 1)
@@ -123,7 +176,7 @@ func Int(m *big.Int) *rapid.Generator[*big.Int] {
 		case 12: // limbs with a zero limb below a non-zero one, or equal limbs
 			var l [4]uint64
 			for i := range l {
-				l[i] = rapid.Uint64().Draw(t, "l")
+				l[i] = U64(t, "l")
 			}
 			z := rapid.IntRange(0, 2).Draw(t, "zl")
 			l[z] = 0
@@ -131,6 +184,37 @@ func Int(m *big.Int) *rapid.Generator[*big.Int] {
 				l[(z+1)%3] = 0
 			}
 			v = FromLimbs(l)
+		case 16: // a subset of the limbs saturated (or zeroed), the others uniformly random: long carry / borrow propagation
+			fill := uint64(0)
+			if rapid.Bool().Draw(t, "ones") {
+				fill = ^uint64(0)
+			}
+			var l [4]uint64
+			for i := range l {
+				l[i] = U64(t, "l")
+				if Pick(t, "sat", 2) == 1 {
+					l[i] = fill
+				}
+			}
+			v = FromLimbs(l)
+		case 13: // algebraic constants of the modulus that fast paths key on: cube roots of unity, 1/2, 1/3, sqrt(-1), +-1 around them
+			cs := algebraicConstants(m)
+			v = new(big.Int).Set(cs[rapid.IntRange(0, len(cs)-1).Draw(t, "alg")])
+			v.Add(v, big.NewInt(int64(rapid.IntRange(-1, 1).Draw(t, "algd"))))
+		case 14: // repeated limbs: every limb is 0 or the same word k (what cancels under a mistaken XOR)
+			k := Limb().Draw(t, "k")
+			var l [4]uint64
+			for i := range l {
+				if rapid.Bool().Draw(t, "on") {
+					l[i] = k
+				}
+			}
+			v = FromLimbs(l)
+		case 15: // just below a small fraction of 2^256: floor(j * 2^256 / d) - delta (where multiplying by the small constant d wraps)
+			d := int64(rapid.SampledFrom([]int{21, 11, 3, 7, 1771, 5, 9, 2, 4, 8}).Draw(t, "d"))
+			j := int64(rapid.IntRange(1, int(d)).Draw(t, "j"))
+			v = new(big.Int).Div(new(big.Int).Mul(big.NewInt(j), two256), big.NewInt(d))
+			v.Sub(v, new(big.Int).SetUint64(U64(t, "delta")>>uint(rapid.IntRange(24, 63).Draw(t, "dsh"))))
 		default:
 			v = Uniform256().Draw(t, "r")
 		}
@@ -251,7 +335,11 @@ func PerturbWords(t *rapid.T, base *big.Int, wordBits uint) *big.Int {
 	out := new(big.Int)
 	for i := n - 1; i >= 0; i-- {
 		w := new(big.Int).And(new(big.Int).Rsh(base, uint(i)*wordBits), mask)
-		switch rapid.IntRange(0, 7).Draw(t, "wordHow") {
+		switch rapid.IntRange(0, 8).Draw(t, "wordHow") {
+		case 8: // same as the previous (more significant) output word
+			if i < n-1 {
+				w = new(big.Int).And(new(big.Int).Rsh(out, 0), mask)
+			}
 		case 0, 1, 2: // keep
 		case 3:
 			w.Add(w, one).And(w, mask)
@@ -262,7 +350,7 @@ func PerturbWords(t *rapid.T, base *big.Int, wordBits uint) *big.Int {
 		case 6:
 			w.Set(mask)
 		default:
-			w = new(big.Int).And(new(big.Int).SetUint64(rapid.Uint64().Draw(t, "word")), mask)
+			w = new(big.Int).And(new(big.Int).SetUint64(U64(t, "word")), mask)
 		}
 		out.Lsh(out, wordBits).Or(out, w)
 	}
@@ -336,3 +424,39 @@ func Neighbours3(w, mask uint64) []uint64 { return []uint64{w - 1, w, w + 1} }
 
 // Patterns4 is {0, 1, top bit, all-ones}.
 func Patterns4(w, mask uint64) []uint64 { return []uint64{0, 1, mask ^ (mask >> 1), mask} }
+
+var algCache = map[string][]*big.Int{}
+
+// algebraicConstants returns, for a prime modulus m, the constants that optimised code special-cases: the non-trivial
+// cube roots of unity (endomorphism eigenvalues), 1/2, -1/2, 1/3, a square root of -1 when it exists, and -1.
+func algebraicConstants(m *big.Int) []*big.Int {
+	key := m.String()
+	if c, ok := algCache[key]; ok {
+		return c
+	}
+	out := []*big.Int{new(big.Int).Sub(m, one)}
+	if inv := new(big.Int).ModInverse(big.NewInt(2), m); inv != nil {
+		out = append(out, inv, new(big.Int).Sub(m, inv))
+	}
+	if inv := new(big.Int).ModInverse(big.NewInt(3), m); inv != nil {
+		out = append(out, inv)
+	}
+	m1 := new(big.Int).Sub(m, one)
+	if m.ProbablyPrime(8) {
+		if new(big.Int).Mod(m1, big.NewInt(3)).Sign() == 0 {
+			e := new(big.Int).Div(m1, big.NewInt(3))
+			for g := int64(2); g < 50; g++ {
+				w := new(big.Int).Exp(big.NewInt(g), e, m)
+				if w.Cmp(one) != 0 {
+					out = append(out, w, new(big.Int).Mod(new(big.Int).Mul(w, w), m))
+					break
+				}
+			}
+		}
+		if r := new(big.Int).ModSqrt(m1, m); r != nil {
+			out = append(out, r)
+		}
+	}
+	algCache[key] = out
+	return out
+}
